@@ -147,6 +147,7 @@ THEOREMS = [
     "IrVerif.PassInfra.C14_rounds_add_defaults",
     "IrVerif.PassInfra.C14_flag_kernel",
     "IrVerif.PassInfra.C14_names_cse_outputs",
+    "IrVerif.PassInfra.C14_names_lift_sub_inits",
 ]
 ASSUMPTIONS = [
     "passes are modelled as arbitrary functions of an abstract world (identity rule, manager flag, honesty of "
@@ -183,9 +184,10 @@ ASSUMPTIONS = [
     "the program (akey, big, tnamed, hkey, tkey) that the theorems quantify over and that this harness computes from the real "
     "objects with its own reading of the documented rule; LiftConstants: the tensor of a `value` attribute carries no name or the "
     "output's name (the two spellings of the program); the rename loop of LiftSubgraphInitializers has a fuel (never exhausted); "
-    "'names kept' means: a value that HAS a name keeps exactly it (Deduplicate, LiftConstants: always; CSE, "
-    "LiftSubgraphInitializers: unless the pass issued Value.name = ... for it), every initializer is registered under its name, "
-    "and CSE keeps the names of the graph outputs position by position; an unnamed value may be named by the name authority.  "
+    "'names kept' means: a value that HAS a name keeps exactly it (Deduplicate, LiftConstants: always; CSE: unless the pass issued "
+    "Value.name = ... for it; LiftSubgraphInitializers: unless it ends as an initializer of the main graph), every initializer is "
+    "registered under its name, and CSE keeps the names of the graph outputs position by position; an unnamed value may be named by "
+    "the name authority.  "
     "AddDefaultAttributes (Model/PassFlags4.lean): flag / idempotence / measure are theorems over an arbitrary schema table (read "
     "off the installed onnx package per case), opset imports and SEQUENCE of visited nodes with opaque value tokens (the pass adds "
     "no graph attribute, so the sequence is the same before and after: checked).  The LINEAR round bound of CSE is a conjecture "
@@ -3359,8 +3361,9 @@ def kpass2_case(part: Part, reqs: list, seed: int) -> None:
             if o == "ok":
                 mops.append(mop)
     if ko.wf_oracle(real):
-        part.count("kpass2:history-not-wf")
+        part.count("kpass2:hyp-WF=False")  # hypothesis of C14_wf_* / C14_names_initializers / C14_names_cse_outputs: dropped
         return
+    part.count("kpass2:hyp-WF=True")
     model = ir.Model(real.graphs[main], ir_version=10)
     extra: dict = {}
     weak = False
